@@ -152,14 +152,14 @@ def check(run):
                 # the transform belongs to the same candidate
                 pm = None
                 for a in tr_alts:
-                    pm = pm or V.match("trimesh.transformations.planar_matrix(_e_OFF, _e_TH)", a) or V.match("trimesh.transformations.planar_matrix(offset=_e_OFF, theta=_e_TH)", a)
+                    pm = pm or V.match("trimesh.transformations.planar_matrix(offset=_e_OFF, theta=_e_TH)", a) or V.match("trimesh.transformations.planar_matrix(offset=_e_OFF, theta=_e_TH)", a)
                 if pm is None:
-                    R.piece("the returned transform", "trimesh.transformations.planar_matrix(_e_OFF, _e_TH)", tr_alts[0])
+                    R.piece("the returned transform", "trimesh.transformations.planar_matrix(offset=_e_OFF, theta=_e_TH)", tr_alts[0])
                 else:
-                    others = [a for a in tr_alts if V.match("trimesh.transformations.planar_matrix(_e_OFF, _e_TH)", a, pm) is None
+                    others = [a for a in tr_alts if V.match("trimesh.transformations.planar_matrix(offset=_e_OFF, theta=_e_TH)", a, pm) is None
                               and V.match("trimesh.transformations.planar_matrix(offset=_e_OFF, theta=_e_TH)", a, pm) is None]
                     R.demand("the alternatives of the transform are the planar matrix and the axis swap applied to it",
-                             all(V.match("numpy.dot(_e_F, trimesh.transformations.planar_matrix(_e_OFF, _e_TH))", a, pm) is not None for a in others),
+                             all(V.match("numpy.dot(_e_F, trimesh.transformations.planar_matrix(offset=_e_OFF, theta=_e_TH))", a, pm) is not None for a in others),
                              "the returned transform is not (an axis swap of) the planar matrix of the chosen candidate", "transform-alternatives")
                     off = None
                     for t_ in ("-_e_B2[_e_i2][_e_sl] - _e_R2 * 0.5", "-(_e_B2[_e_i2][_e_sl] + _e_R2 * 0.5)", "-_e_B2[_e_i2][_e_sl] - _e_R2 / 2", "-_e_B2[_e_i2][_e_sl] - 0.5 * _e_R2"):
@@ -227,7 +227,7 @@ def check(run):
                 R.piece("the box centre", "_e_T1.min(axis=0) + numpy.ptp(_e_T2, axis=0) * 0.5", base["_e_C"])
         else:
             cen.setdefault("_e_T3", cen["_e_T1"])
-            tp = V3.match("trimesh.transformations.transform_points(_e_V, _e_M2)", cen["_e_T1"]) or V3.match("trimesh.transformations.transform_points(points=_e_V, matrix=_e_M2)", cen["_e_T1"])
+            tp = V3.match("trimesh.transformations.transform_points(points=_e_V, matrix=_e_M2)", cen["_e_T1"])
             env = dict(cen)
             env.update(tp or {})
             env["M"] = base["_e_M"]
@@ -236,14 +236,14 @@ def check(run):
                    "the translation is not minus the centre of the points transformed by the returned matrix: the box is not centred on them", "centre")
     plain = None
     for a in ex_alts:
-        plain = plain or V3.match("numpy.append(trimesh.bounds.oriented_bounds_2D(_e_PA[:, :2])[1], numpy.ptp(_e_PB[:, 2]))", a)
+        plain = plain or V3.match("numpy.append(trimesh.bounds.oriented_bounds_2D(points=_e_PA[:, :2])[1], numpy.ptp(_e_PB[:, 2]))", a)
     if plain is None:
-        R.piece("the returned extents", "numpy.append(trimesh.bounds.oriented_bounds_2D(_e_PA[:, :2])[1], numpy.ptp(_e_PB[:, 2]))", ex_alts[0])
+        R.piece("the returned extents", "numpy.append(trimesh.bounds.oriented_bounds_2D(points=_e_PA[:, :2])[1], numpy.ptp(_e_PB[:, 2]))", ex_alts[0])
     else:
         R.same("height and base rectangle are measured on the same projection", plain, [("_e_PA", "_e_PB")],
                "the height and the base rectangle are measured on different projections of the points", "same-projection")
         if base is not None:
-            rot = V3.match("numpy.dot(trimesh.transformations.planar_matrix_to_3D(STORE(trimesh.bounds.oriented_bounds_2D(_e_PC[:, :2])[0], _[:2, 2], 0.0)), _e_M2D)", base["_e_M"])
+            rot = V3.match("numpy.dot(trimesh.transformations.planar_matrix_to_3D(matrix_2D=STORE(trimesh.bounds.oriented_bounds_2D(points=_e_PC[:, :2])[0], _[:2, 2], 0.0)), _e_M2D)", base["_e_M"])
             if rot is not None:
                 rot["PA"] = plain["_e_PA"]
                 R.same("the in-plane rotation comes from the same 2D call as the base rectangle", rot, [("_e_PC", "PA")],
